@@ -2,6 +2,7 @@ SPECIFICATION Spec
 CONSTANTS
   Shapes <- ShapesQuick
   MaxDepth = 3
+  Focus = "all"
   MaxSize = 12
   AsFound = FALSE
   EmitCases = TRUE
